@@ -98,6 +98,28 @@ func isNewQueries(s ast.Stmt) bool {
 	return ok && sel.Sel.Name == "New" && len(call.Args) == 1
 }
 
+// bindLocal records `x := e` for inlining when e is free of side effects: a pure expression
+// (conversions, len, field selections) or an expression the rename table gives a value to
+// (e.g. Header.Number.Int64()). It reports whether the statement was such a binding.
+func bindLocal(t *tr, s ast.Stmt) bool {
+	as, ok := s.(*ast.AssignStmt)
+	if !ok || as.Tok != token.DEFINE || len(as.Lhs) != 1 || len(as.Rhs) != 1 {
+		return false
+	}
+	id, ok := as.Lhs[0].(*ast.Ident)
+	if !ok {
+		return false
+	}
+	if _, known := t.rename[t.text(as.Rhs[0])]; !known && !pureExpr(as.Rhs[0]) {
+		return false
+	}
+	if t.subst == nil {
+		t.subst = map[string]ast.Expr{}
+	}
+	t.subst[id.Name] = as.Rhs[0]
+	return true
+}
+
 // ---- shouldTriggerDecryption ------------------------------------------------------------------
 
 // boolStmts translates the body of a function returning (bool, error): `return b, nil` is b.
@@ -131,6 +153,9 @@ func (g *stf) boolStmts(ss []ast.Stmt, eventVar string) string {
 				t.rename[exprText(s.Lhs[1])] = "decryptable"
 				return g.boolStmts(ss[2:], eventVar)
 			}
+		}
+		if bindLocal(t, s) {
+			return g.boolStmts(ss[1:], eventVar)
 		}
 		return t.fail("unsupported assignment %s", exprText(s.Rhs[0]))
 	case *ast.IfStmt:
@@ -204,6 +229,9 @@ func resolveStmts(t *tr, ss []ast.Stmt, cfgParam string, eonVar *string) string 
 		}
 		return second(s)
 	case *ast.AssignStmt:
+		if bindLocal(t, s) {
+			return resolveStmts(t, ss[1:], cfgParam, eonVar)
+		}
 		if len(s.Rhs) != 1 || len(s.Lhs) < 2 || !isIdent(s.Lhs[len(s.Lhs)-1], "err") {
 			return t.fail("unsupported assignment")
 		}
@@ -583,18 +611,33 @@ func translateFetchEvents(repo string) (string, error) {
 	}
 	trig, lg := exprText(outer.Value), exprText(inner.Value)
 	t := &tr{rename: map[string]string{start: "start", lg + ".BlockNumber": "log_block", trig + ".ExpirationBlockNumber": "expiration"}}
-	fmt.Fprintf(&sb, "(* FetchEvents: the argument of GetActiveEventTriggerRegisteredEvents *)\nDefinition gen_active_param (start : Z) : Z := %s.\n\n", t.expr(activeArg))
+	// locals bound to side-effect-free expressions (function level, in the loop over triggers
+	// before the loop over logs, at the head of the loop over logs) are inlined
+	for _, st := range fd.Body.List {
+		bindLocal(t, st)
+	}
+	for _, st := range outer.Body.List {
+		if st == ast.Stmt(inner) {
+			break
+		}
+		bindLocal(t, st)
+	}
+	ib := inner.Body.List
+	for len(ib) > 0 && bindLocal(t, ib[0]) {
+		ib = ib[1:]
+	}
 	// the first statement of the inner loop must be the expiry test
-	if len(inner.Body.List) == 0 {
+	if len(ib) == 0 {
 		return bad("empty loop over logs")
 	}
-	is, ok := inner.Body.List[0].(*ast.IfStmt)
+	is, ok := ib[0].(*ast.IfStmt)
 	if !ok || is.Init != nil || is.Else != nil || len(is.Body.List) != 1 {
 		return bad("the loop over logs does not start with the expiry test")
 	}
 	if br, ok := is.Body.List[0].(*ast.BranchStmt); !ok || br.Tok != token.CONTINUE {
 		return bad("the expiry test does not skip the log")
 	}
+	fmt.Fprintf(&sb, "(* FetchEvents: the argument of GetActiveEventTriggerRegisteredEvents *)\nDefinition gen_active_param (start : Z) : Z := %s.\n\n", t.expr(activeArg))
 	cond := t.expr(is.Cond)
 	if t.err != nil {
 		return bad("%v", t.err)
@@ -604,7 +647,7 @@ func translateFetchEvents(repo string) (string, error) {
 	}
 	// no other `continue`-less path may append before the test: the append must come after it
 	appended := false
-	for _, s := range inner.Body.List[1:] {
+	for _, s := range ib[1:] {
 		ast.Inspect(s, func(n ast.Node) bool {
 			if c, ok := n.(*ast.CallExpr); ok && isIdent(c.Fun, "append") {
 				appended = true
@@ -709,6 +752,7 @@ var (
 	reParamAt = regexp.MustCompile(`^(?:@(\w+)|sqlc\.arg\((\w+)\))$`)
 	reNotEx   = regexp.MustCompile(`(?i)^NOT EXISTS *\( *SELECT 1 FROM (\w+) (\w+) WHERE (.+)\)$`)
 	reInt     = regexp.MustCompile(`^\d+$`)
+	reFlip    = regexp.MustCompile(`^(\$\d+|@\w+|sqlc\.arg\(\w+\)) *(>=|<=|<>|=|<|>) *((?:\w+\.)?\w+)$`)
 )
 
 // sqlWhere translates a conjunction of comparisons. corr: expected correlation conditions of a
@@ -782,6 +826,9 @@ func (t *sqlTr) where(clause string, corr map[string][]string) (string, error) {
 			}
 			parts = append(parts, "negb "+t.col("exists_"+table, "bool"))
 			continue
+		}
+		if f := reFlip.FindStringSubmatch(c); f != nil { // `$1 <= col` is `col >= $1`
+			c = f[3] + " " + map[string]string{">=": "<=", "<=": ">=", "<": ">", ">": "<", "=": "=", "<>": "<>"}[f[2]] + " " + f[1]
 		}
 		m := reCmp.FindStringSubmatch(c)
 		if m == nil {
